@@ -141,7 +141,9 @@ type profile struct {
 	wAck, wDrop, wRecon   int
 	wRelease, wPing, wBad int
 	wFail, wLate          int
-	retain                int // percent of publishes with retain
+	wSpur, wIdle          int  // spurious PUBACK for an id not in flight; an idle period longer than the token timeout
+	emptyWills            bool // retained wills with an empty payload (they clear the retained message)
+	retain                int  // percent of publishes with retain
 	wills                 bool
 	qos                   []packet.QOS
 	multiFilter           bool
@@ -182,6 +184,9 @@ func randomScript(r *gen.Rng, o *out.W, prop string, p profile) {
 		var will *packet.Message
 		if p.wills && r.Bool() {
 			will = &packet.Message{Topic: topics[r.Intn(3)], Payload: []byte("will-" + id), QOS: p.qos[r.Intn(len(p.qos))], Retain: r.Intn(100) < p.retain}
+			if p.emptyWills && r.Intn(3) == 0 {
+				will.Payload, will.Retain = []byte{}, true // clears the retained message of its topic
+			}
 		}
 		w.Connect(c, id, r.Intn(3) == 0, will, 0, "", "")
 		cur[id] = c
@@ -196,7 +201,7 @@ func randomScript(r *gen.Rng, o *out.W, prop string, p profile) {
 		return "", 0, false
 	}
 	for step := 0; step < p.steps; step++ {
-		k := pickW(r, []int{p.wSub, p.wUnsub, p.wPub, p.wAck, p.wDrop, p.wRecon, p.wRelease, p.wPing, p.wBad, p.wFail, p.wLate})
+		k := pickW(r, []int{p.wSub, p.wUnsub, p.wPub, p.wAck, p.wDrop, p.wRecon, p.wRelease, p.wPing, p.wBad, p.wFail, p.wLate, p.wSpur, p.wIdle})
 		id, c, ok := anyAlive()
 		if !ok && k != 5 {
 			k = 5
@@ -276,6 +281,12 @@ func randomScript(r *gen.Rng, o *out.W, prop string, p profile) {
 			} else {
 				w.AckRelease()
 			}
+		case 11:
+			// the peer acknowledges something it never received (it widens its own window; what is recorded must still be
+			// retransmitted in full when it resumes)
+			w.Send(c, &packet.Puback{ID: packet.ID(40000 + r.Intn(1000))})
+		case 12:
+			w.Idle()
 		}
 	}
 	w.AckMode("sync")
@@ -476,7 +487,7 @@ func c12Script(r *gen.Rng, o *out.W) {
 	w.seq++
 	will := &packet.Message{Topic: "will/" + fmt.Sprint(w.seq), Payload: []byte(fmt.Sprintf("will-%d", w.seq)), QOS: packet.QOS(r.Intn(3)), Retain: r.Bool()}
 	c := w.Conn()
-	state := r.Intn(5)
+	state := r.Intn(6)
 	cause := r.Intn(13)
 	desc := fmt.Sprintf("state=%d cause=%d", state, cause)
 	o.Count("c12/" + desc)
@@ -516,6 +527,18 @@ func c12Script(r *gen.Rng, o *out.W) {
 			for i := 0; i < 6; i++ {
 				w.Publish(c, "q", 1, false, false)
 			}
+		case 5: // accepted, but still busy retransmitting what the resumed session holds
+			w.Subscribe(c, packet.Subscription{Topic: "q", QOS: 1})
+			w.Publish(c, "q", 1, false, false)
+			w.Publish(c, "q", 1, false, false)
+			w.Drop(c)
+			c2 := w.Conn()
+			w.peers[c2].unacked = w.peers[c].unacked
+			w.FailSend(c2, 2) // the CONNACK goes out, the first retransmission fails
+			w.seq++
+			will = &packet.Message{Topic: "will/" + fmt.Sprint(w.seq), Payload: []byte(fmt.Sprintf("will-%d", w.seq)), QOS: will.QOS, Retain: will.Retain}
+			w.Connect(c2, "V", false, will, ka, user, pass)
+			c = c2
 		}
 		if w.alive(c) {
 			switch cause {
@@ -905,6 +928,98 @@ func c14Huge(r *gen.Rng, o *out.W) {
 	o.Sample(fmt.Sprintf("huge topics, %d lines", len(w.trace)))
 }
 
+// subscriptions racing retained publishes (C11): each subscriber fires CONNECT and exactly one SUBSCRIBE r/# while
+// publishers fire retained publishes, each on a topic of its own.  Storing the subscription and replaying the retained
+// messages is one atomic step with respect to a publish (update retained, then fan out), so every subscriber gets every
+// message exactly once — live if its subscription came first, replayed (flagged retained) if the publish came first.
+// Monitors only.
+func c11Storm(r *gen.Rng, o *out.W) {
+	nextNoModel = true
+	w := newWorld(o, "C11", 10, 100, nil)
+	type prog struct {
+		c  int
+		ps []packet.Generic
+	}
+	var progs []prog
+	var subs []int
+	tags := map[string]bool{}
+	nsub, npub := 1+r.Intn(3), 1+r.Intn(3)
+	for i := 0; i < nsub; i++ {
+		c := w.Conn()
+		pr := w.peers[c]
+		pr.clientID, pr.clean = fmt.Sprintf("S%d", i), true
+		cp := packet.NewConnect()
+		cp.ClientID, cp.CleanSession = pr.clientID, true
+		progs = append(progs, prog{c, []packet.Generic{cp, &packet.Subscribe{ID: w.nextPid(c), Subscriptions: []packet.Subscription{{Topic: "r/#", QOS: 1}}}}})
+		subs = append(subs, c)
+	}
+	for i := 0; i < npub; i++ {
+		c := w.Conn()
+		pr := w.peers[c]
+		pr.clientID, pr.clean = fmt.Sprintf("P%d", i), true
+		cp := packet.NewConnect()
+		cp.ClientID, cp.CleanSession = pr.clientID, true
+		ps := []packet.Generic{cp}
+		for j, m := 0, 1+r.Intn(4); j < m; j++ {
+			w.seq++
+			tag := fmt.Sprintf("m%d", w.seq)
+			tags[tag] = true
+			ps = append(ps, &packet.Publish{ID: w.nextPid(c), Message: packet.Message{Topic: "r/" + tag, QOS: 1, Retain: true, Payload: []byte(tag)}})
+		}
+		progs = append(progs, prog{c, ps})
+	}
+	var wg sync.WaitGroup
+	for _, pg := range progs {
+		wg.Add(1)
+		go func(pg prog) {
+			defer wg.Done()
+			for _, p := range pg.ps {
+				w.Fire(pg.c, p)
+			}
+		}(pg)
+	}
+	wg.Wait()
+	w.settle()
+	for _, pg := range progs {
+		for _, a := range w.peers[pg.c].acks {
+			if strings.HasPrefix(a, "connack") && strings.HasSuffix(a, " 0") {
+				w.peers[pg.c].connected = true
+			}
+		}
+	}
+	for round := 0; round < 20; round++ {
+		any := false
+		for _, c := range subs {
+			if w.alive(c) && len(w.peers[c].unacked) > 0 {
+				w.AckAll(c)
+				any = true
+			}
+		}
+		if !any {
+			break
+		}
+	}
+	for _, c := range subs {
+		if !w.alive(c) {
+			continue
+		}
+		got := map[string]int{}
+		for _, p := range w.peers[c].got {
+			if !p.Dup {
+				got[string(p.Message.Payload)]++
+			}
+		}
+		for tag := range tags {
+			if got[tag] != 1 {
+				w.hit("subscribe-publish-not-atomic", fmt.Sprintf("connection %d subscribed r/# once while %q was published retained once: it received the message %d times (live and replayed copies counted), expected exactly once", c, tag, got[tag]))
+			}
+		}
+	}
+	w.finish()
+	o.Distinct(fmt.Sprintf("c11 storm %d %d", nsub, npub))
+	o.Sample(fmt.Sprintf("subscribe/retained-publish storm: %d subscribers, %d publishers", nsub, npub))
+}
+
 // takeover storms for C13
 func c13Script(r *gen.Rng, o *out.W) {
 	w := newWorld(o, "C13", 1+r.Intn(3), 100, nil)
@@ -1077,12 +1192,13 @@ func TestHarness(t *testing.T) {
 	case "C08":
 		sc("C08 offline", c08Offline)
 		rs("C08 subscriber behaviours", func() profile {
-			return profile{window: 1 + r.Intn(4), queue: 100, clients: 2 + r.Intn(2), steps: 30 + r.Intn(40), wSub: 3, wPub: 10, wAck: 6, wDrop: 2, wRecon: 3, wFail: 2, qos: all}
+			return profile{window: 1 + r.Intn(4), queue: 100, clients: 2 + r.Intn(2), steps: 30 + r.Intn(40), wSub: 3, wPub: 10, wAck: 6, wDrop: 2, wRecon: 3, wFail: 2, wSpur: 1, qos: all}
 		})
 	case "C11":
 		rs("C11 retained", func() profile {
-			return profile{window: 10, queue: 100, clients: 2 + r.Intn(3), steps: 30 + r.Intn(40), wSub: 8, wUnsub: 1, wPub: 10, wAck: 6, wDrop: 1, wRecon: 2, retain: 60, wills: true, qos: all, multiFilter: true}
+			return profile{window: 10, queue: 100, clients: 2 + r.Intn(3), steps: 30 + r.Intn(40), wSub: 8, wUnsub: 1, wPub: 10, wAck: 6, wDrop: 1, wRecon: 2, retain: 60, wills: true, emptyWills: true, qos: all, multiFilter: true}
 		})
+		sc("C11 subscribe/publish storm", c11Storm)
 	case "C12":
 		sc("C12 termination", c12Script)
 	case "C13":
@@ -1105,7 +1221,7 @@ func TestHarness(t *testing.T) {
 		})
 	case "C16":
 		rs("C16 window", func() profile {
-			return profile{window: 1 + r.Intn(4), queue: 100, clients: 2, steps: 40 + r.Intn(60), wSub: 2, wPub: 14, wAck: 9, wDrop: 1, wRecon: 2, qos: all}
+			return profile{window: 1 + r.Intn(4), queue: 100, clients: 2, steps: 40 + r.Intn(60), wSub: 2, wPub: 14, wAck: 9, wDrop: 1, wRecon: 2, wIdle: 1, qos: all}
 		})
 	case "C20":
 		sc("C20 request/response", c20Script)
